@@ -19,9 +19,13 @@ def _stress(args):
     seed, nthreads, per_thread = args[0]
     rng = random.Random(seed)
     inputs = [[wikigen.any_input(rng, "small" if rng.random() < 0.8 else "large") for _ in range(per_thread)] for _ in range(nthreads)]
-    which = ["py" if (i % 2 == 0 or st["c"] is None) else "c" for i in range(nthreads)]
+    which = ["api" if i % 3 == 2 else ("py" if (i % 2 == 0 or st["c"] is None) else "c") for i in range(nthreads)]
+    import mwparserfromhell
 
     def parse_one(w, text):
+        if w == "api":      # the public entry point: a new Parser per call, default tokenizer
+            code = mwparserfromhell.parse(text)
+            return str(code) + "|" + code.get_tree()
         toks = st[w]().tokenize(text)
         return str(Builder().build(toks)) + "|" + repr(tokharness.canon(st[w]().tokenize(text)))
     expected = [[parse_one(which[i], t) for t in inputs[i]] for i in range(nthreads)]
@@ -82,7 +86,7 @@ def run(tier, seed):
             c.fail("a parse running concurrently with others gave a different result than alone: %r %r" % (bad, errors),
                    {"seed": job[0], "threads": nthreads, "examples": repr(bad), "errors": repr(errors)})
     c.cov["distinct_nontrivial"] = overlap_total
-    c.cov["rule"] = ("%d rounds x %d threads x %d parses, each thread with its own inputs and its own tokenizer/Builder objects (even threads: "
+    c.cov["rule"] = ("%d rounds x %d threads x %d parses, each thread with its own inputs and its own tokenizer/Builder objects (every third thread: mwparserfromhell.parse(); even threads: "
                      "Python tokenizer, odd: C), switch interval 1e-6 s; every result compared with the sequential one; non-trivial = a parse "
                      "that started while >= 1 other thread was inside a parse (counted)" % (rounds, nthreads, per))
     c.cov["samples"] = [{"seed": j[0], "threads": j[1], "parses_per_thread": j[2]} for j in jobs[:2]]
